@@ -371,11 +371,19 @@ def synth_wsdl(r, n_ops, headers=True, parts_attr=None, styles=None):
     x.append('</xs:schema>\n</wsdl:types>\n')
     oneway = set()
     hdrs = {}
+    multi = {}
     for o in ops:
         O = o.capitalize()
         nh = r.randrange(0, 3) if headers else 0
         hdrs[o] = nh
         parts = [f'<wsdl:part name="parameters" element="tns:{O}Request"/>']
+        # some messages carry further parts that no header names (all unbound parts belong to the body in WSDL 1.1)
+        extra = r.randrange(0, 3) if r.random() < 0.4 else 0
+        multi[o] = extra
+        if extra >= 1:
+            parts.append('<wsdl:part name="audit" element="tns:TraceHeader"/>')
+        if extra >= 2:
+            parts.append('<wsdl:part name="paging" element="tns:AuthHeader"/>')
         if nh >= 1:
             parts.append('<wsdl:part name="auth" element="tns:AuthHeader"/>')
         if nh >= 2:
@@ -395,7 +403,7 @@ def synth_wsdl(r, n_ops, headers=True, parts_attr=None, styles=None):
              '<soap:binding style="document" transport="http://schemas.xmlsoap.org/soap/http"/>\n')
     for o in ops:
         O = o.capitalize()
-        use_parts = parts_attr if parts_attr is not None else (r.random() < 0.5)
+        use_parts = parts_attr if parts_attr is not None else (r.random() < 0.5 and not multi.get(o))
         body = '<soap:body use="literal" parts="parameters"/>' if use_parts else '<soap:body use="literal"/>'
         h = ""
         if hdrs[o] >= 1:
@@ -408,7 +416,7 @@ def synth_wsdl(r, n_ops, headers=True, parts_attr=None, styles=None):
                  f'</wsdl:operation>\n')
     x.append('</wsdl:binding>\n<wsdl:service name="Svc"><wsdl:port name="SvcPort" binding="tns:SvcBinding">'
              '<soap:address location="http://127.0.0.1:9/svc"/></wsdl:port></wsdl:service>\n</wsdl:definitions>\n')
-    return "".join(x), {"ops": ops, "headers": hdrs, "oneway": sorted(oneway)}
+    return "".join(x), {"ops": ops, "headers": hdrs, "oneway": sorted(oneway), "multi_part_bodies": multi}
 
 
 # =========================================================================================== C12
